@@ -113,7 +113,7 @@ func genC08(t *rapid.T, tier string) (*World, any) {
 	}
 	// cross-file probes
 	sort.Strings(targets)
-	p.Probe = pick(t, []string{"none", "none", "stash-writer-reader", "unclosed-block", "definition-elsewhere", "flags-elsewhere", "prefix-elsewhere", "exclude-under-other-definitions", "file-format-rejects", "uppercase-class-elsewhere"}, "probe")
+	p.Probe = pick(t, []string{"none", "none", "stash-writer-reader", "unclosed-block", "definition-elsewhere", "flags-elsewhere", "prefix-elsewhere", "exclude-under-other-definitions", "file-format-rejects", "uppercase-class-elsewhere", "cmdline-both-shells"}, "probe")
 	a, b := targets[0], targets[1]
 	if drawBool(t, "probe-swap") {
 		a, b = b, a
@@ -142,6 +142,11 @@ func genC08(t *rapid.T, tier string) (*World, any) {
 	case "file-format-rejects":
 		// a file that format refuses (stray end marker): --all must still treat every other file as the single invocations do
 		progs[a] = append(progs[a], "##!<")
+	case "cmdline-both-shells":
+		// the same commands with the same markers, for one shell in one file and for the other shell in another
+		progs[a] = append(progs[a], "##!> cmdline unix", "  shared@", "  other~", "  plain", "##!<")
+		progs[b] = append(progs[b], "##!> cmdline windows", "  shared@", "  other~", "  plain", "##!<")
+		w.Put("crs/regex-assembly/toolchain.yaml", crsLikeConfig)
 	case "flags-elsewhere":
 		progs[a] = append([]string{"##!+ i"}, lowerAll(progs[a])...)
 	case "prefix-elsewhere":
@@ -150,7 +155,7 @@ func genC08(t *rapid.T, tier string) (*World, any) {
 	for name, lines := range progs {
 		w.Put("crs/regex-assembly/"+name+".ra", joinLines(lines))
 	}
-	if chance(t, 40, "cfg") {
+	if chance(t, 40, "cfg") || p.Probe == "cmdline-both-shells" {
 		w.Put("crs/regex-assembly/toolchain.yaml", crsLikeConfig)
 	}
 	// orders of single invocations
